@@ -72,3 +72,14 @@ Definition perform_prog (s : sess) (deps : list bytes) (prog : list step) : list
 
 Definition vperform (s : sess) (c : vgcall) : list event * outcome :=
   perform_prog s (vg_deps c) (vg_steps c).
+
+(* the capability-dependent constructs a vendor request carries (Gating.wire): the <url> datastore_or_url builds *)
+Definition vwire_of (c : vgcall) : list wire :=
+  match c with
+  | GALoadConfiguration fmt tgt (Some _) _ =>
+      if beq fmt s_f_xml then ds_wire tgt else if beq fmt s_vg_cli then ds_wire tgt else []
+  | GALoadConfiguration _ _ None _ => []
+  | GAGetConfiguration _ => ds_wire (DsStr s_vg_running true)
+  | GHGetBulkConfig src _ => ds_wire src
+  | GPlain _ _ => []
+  end.
